@@ -662,9 +662,19 @@ def translate_command_step(tree, handlers, params_of):
     lines.append("/-- the codes `command_phase` dispatches, in the order of its if / elif chain -/")
     lines.append("def dispatched : List Nat := [%s]" % ", ".join(str(c) for c, _, _ in chain))
     lines.append("")
+    # `except AuthenticationFailed: return`: only an untranslated handler can raise it (checked: no translated handler mentions it)
+    for h in handlers:
+        fn = next((n for n in cls.body if isinstance(n, ast.AsyncFunctionDef) and n.name == "handle_" + h), None)
+        if fn is not None and "AuthenticationFailed" in ast.unparse(fn):
+            raise Untranslatable("translated handler handle_%s mentions AuthenticationFailed: the command-step translation assumes only untranslated handlers raise it" % h)
+    untranslated = [code for code, kind, h in chain if kind == "call" and h not in handlers]
+    AF = "(auth_failed : Nat → Connection S → Bytes → Option (Connection S))"
+    lines.append("/-- the codes whose handlers are not translated (parameters `other_handler` / `auth_failed`) -/")
+    lines.append("def untranslated : List Nat := [%s]" % ", ".join(str(c) for c in untranslated))
+    lines.append("")
     lines.append("/-- **one iteration of the command loop after a packet was read** (kills excluded): mark executing, dispatch, on an\n"
                  "    exception write exactly one ERR, in every case clear the flag and reset the sequence; `true`: the loop goes on -/")
-    lines.append("def command_step%s (other_handler : Nat → Connection S → Bytes → Except (Connection S) (Connection S)) (error_packet : Connection S → Bytes) (self : (Connection S)) (data : Bytes) : (Connection S) × Bool :=" % extra)
+    lines.append("def command_step%s (other_handler : Nat → Connection S → Bytes → Except (Connection S) (Connection S)) (error_packet : Connection S → Bytes) %s (self : (Connection S)) (data : Bytes) : (Connection S) × Bool :=" % (extra, AF))
     lines.append("  let self := { self with _executing := true }")
     lines.append("  let fin := fun (s : Connection S) => { s with _executing := false, out := s.out ++ [Ev.reset_seq] }")
     lines.append("  match data with")
@@ -673,6 +683,11 @@ def translate_command_step(tree, handlers, params_of):
     lines.append("    (fin { s with out := s.out ++ [Ev.write (error_packet s) true] }, true)")
     lines.append("  | command :: rest =>")
     allp = " ".join(pn for pn, _ in params_of["__all__"])
+    lines.append("    -- `except AuthenticationFailed: return` (the ERR was written by the handler; the `finally` still runs): `auth_failed k c d = some s`")
+    lines.append("    -- says the untranslated handler of command `k`, started from `c` on `d`, raises it leaving the connection as `s`")
+    lines.append("    match (if untranslated.contains command.toNat then auth_failed command.toNat self rest else none) with")
+    lines.append("    | some s => (fin s, false)")
+    lines.append("    | none =>")
     lines.append("    match dispatch %s other_handler self command.toNat rest with" % allp)
     lines.append("    | .ok (some s) => (fin s, true)")
     lines.append("    | .ok none => (fin self, false)")
@@ -681,12 +696,13 @@ def translate_command_step(tree, handlers, params_of):
     lines.append("      (fin { s with out := s.out ++ [Ev.write (error_packet s) true] }, true)")
     lines.append("")
     lines.append("/-- **the `while True` of `command_phase`** over the packets the client sends, in order: read a packet (none left: the peer is\n"
-                 "    gone, `ConnectionClosed` → `return`), run one iteration, go on unless it returned.  `true`: ended by COM_QUIT -/")
-    lines.append("def command_loop%s (other_handler : Nat → Connection S → Bytes → Except (Connection S) (Connection S)) (error_packet : Connection S → Bytes) : (Connection S) → List Bytes → (Connection S) × Bool" % extra)
+                 "    gone, `ConnectionClosed` → `return`), run one iteration, go on unless it returned.  `true`: ended by a `return` of the\n"
+                 "    loop body (COM_QUIT, or AuthenticationFailed out of an untranslated handler) -/")
+    lines.append("def command_loop%s (other_handler : Nat → Connection S → Bytes → Except (Connection S) (Connection S)) (error_packet : Connection S → Bytes) %s : (Connection S) → List Bytes → (Connection S) × Bool" % (extra, AF))
     lines.append("  | self, [] => (self, false)")
     lines.append("  | self, data :: more =>")
-    lines.append("    match command_step %s other_handler error_packet self data with" % allp)
-    lines.append("    | (s, true) => command_loop %s other_handler error_packet s more" % allp)
+    lines.append("    match command_step %s other_handler error_packet auth_failed self data with" % allp)
+    lines.append("    | (s, true) => command_loop %s other_handler error_packet auth_failed s more" % allp)
     lines.append("    | (s, false) => (s, true)")
     return "\n".join(lines) + "\n"
 
